@@ -13,7 +13,7 @@ NA = {
 CHECKS = {
     "C01": ("deterministic simulation with fault injection: seeded chaos sessions (cuts, resizes, snapshots, drain policies, stream damage) with a panic / hang / resize-cost invariant after every call",
             "Seeded exploration: every public operation is driven by a PRNG-scheduled environment (chunking, resize timing, snapshot/restart, consumer policy, stream damage, all sizes and limits) in a build with overflow and bounds checks; each call must return (catch_unwind) within the hang limit, and the CPU time of every resize must stay within a budget linear in the cells the terminal holds (running time bounded by the work requested; resizes to and from geometries up to 70000 columns or rows). Sampling, not proof: a clean batch is evidence.",
-            "trusts: catch_unwind sees every panic (panic=unwind build, overflow-checks and debug-assertions on); hang = run > 60 s; resize cost = thread CPU time vs 500 ms + 5 us per cell (~50x the measured linear cost), an excess re-measured three times on fresh terminals and the fastest of four judged; feed cost is not judged; allocation failure of legitimately huge requests and mem::forget(Changes) out of scope", "§5 C01"),
+            "trusts: catch_unwind sees every panic (panic=unwind build, overflow-checks and debug-assertions on); hang = run > 120 s; resize cost = thread CPU time vs 500 ms + 5 us per cell (~50x the measured linear cost), an excess re-measured three times on fresh terminals and the fastest of four judged; feed cost is not judged; allocation failure of legitimately huge requests and mem::forget(Changes) out of scope", "§5 C01"),
     "C02": ("deterministic simulation with fault injection: geometry invariants evaluated after every simulated call of chaos sessions",
             "Seeded exploration: the statement's geometry invariants are evaluated through the public API after every feed_str / feed(char) / resize of PRNG-scheduled chaos sessions (resizes while the alternate screen shows, mid-sequence, with wrap pending; damaged streams; all sizes and limits).",
             "trusts: TextUnwrapper::push as the reader of the soft-wrap mark; 'col == cols only by printing with auto-wrap on' is checked as necessary conditions via the lock-step parser's function stream and the hidden-state tracker's auto-wrap flag (no explicit placement after the last print, same row, auto-wrap on at some print when the position is newly reached)", "§5 C02"),
